@@ -31,6 +31,18 @@ STRENGTHENED = {
  "C19-5": "output files never pre-existed with longer content: existing-longer-output cases added (decrypt over it, re-encrypt over an older image)",
 }
 STRENGTHENED.update({
+ "C01-9": "packet sessions never re-keyed through *_aead_reinit: re-keying between packets with the object's own (documented) nonce field as the argument added",
+ "C01-10": "C++ AEAD objects were always keyed before the nonce was set: set_nonce-then-set_key path added",
+ "C02-9": "masked keys were used straight after creation: AEM operations with the key re-randomized once or twice before use added",
+ "C02-10": "session nonces carried only out of the low 4 bytes: carries out of the low 8 bytes and the full wrap added to C02's packet sessions (C14 did catch it)",
+ "C03-10": "no XOF/XOFA history reached its start through *_reinit / _reinit_fixed / _reinit_custom: reinit after a prior history (nothing, whole blocks, a partial block, squeezed) added",
+ "C04-9": "HMAC / KMAC in C04 never went through *_reinit (C07 did): RE:<seed> variants added to C04 and to the KDF lines of C05",
+ "C06-10": "a refused set_key (wrong length, NULL) on the C++ SIV/ISAP/AEAD objects was never followed by use: setkeybad path added",
+ "C12-10": "the scripted storage write callback looked at no more than 32 bytes of what it was handed: it now reads all `size` bytes, so a size beyond the library's buffer is an over-read in the sanitised builds",
+ "C13-9": "the plain C64 backend (ascon-sliced64.c without the assembly hooks) was built only in the thorough tier: added to the quick tier",
+ "C18-9": "ascon_backend_free of the RISC-V / Xtensa / AArch64 files was analysed but its ABI facts were only recorded: a clobbered callee-saved register now blocks the file's obligations",
+})
+STRENGTHENED.update({
  "C01-7": "lengths of 2^32 and more ran only in the thorough tier: AD of 2^32+5 zero bytes through each variant's one-shot encryption (read-only zero pages, three processes side by side) added to the quick tier",
  "C02-7": "ISAP decryption never went through a saved and reloaded key in C02 (C06 had it): reloaded-key sessions with a valid and a forged ciphertext added",
  "C02-8": "no quick-tier build with one data share: (4,1,4) build added for the masked entry points",
